@@ -4,7 +4,7 @@
    tree the records build (apply_items) and the frames. *)
 From Coq Require Import Lia ZifyNat ZifyN ZifyBool.
 From EZ Require Import Base Bytes Types Api Enc Dec Proofs_Bytes Proofs_Lookup Proofs_Param Proofs_Codec Proofs_Section
-  Proofs_Record Proofs_Chain Proofs_ChainW Proofs_HeaderCodec Proofs_Guards Proofs_RoundTrip.
+  Proofs_Record Proofs_Chain Proofs_ChainZ Proofs_ChainW Proofs_HeaderCodec Proofs_Guards Proofs_RoundTrip.
 Local Open Scope N_scope.
 
 (* ---------- leading zeros ---------- *)
@@ -103,24 +103,71 @@ Qed.
 Lemma sub64_small : forall a, 1 <= a -> a < two64 -> sub64 a 1 = a - 1.
 Proof. intros a H1 H2. unfold sub64, wrap64, two64 in *. Ltac Zify.zify_post_hook ::= Z.div_mod_to_equations. lia. Qed.
 
-Theorem read_parameters_layout : forall h its gs b0 b1 blocks proc pre tail st,
+(* the two ways a chain of records may end: a zero name length after the last record (ez = false), or a zero next-record
+   offset IN the last record (ez = true) *)
+Definition chain_of (ez : bool) (its : list item) : list N :=
+  if ez then match rev its with
+             | last :: ri => concat (map item_bytes (rev ri)) ++ item_bytes0 last
+             | [] => [0]
+             end
+  else concat (map item_bytes its) ++ [0].
+
+Lemma chain_of_length : forall ez its, length (chain_of ez its) = (if ez then match its with [] => 1 | _ => items_len its end else items_len its + 1)%nat.
+Proof.
+  intros ez its. unfold chain_of. destruct ez; [|rewrite app_length; reflexivity].
+  destruct (rev its) as [|last ri] eqn:E.
+  - apply (f_equal (@rev item)) in E. rewrite rev_involutive in E. subst its. reflexivity.
+  - apply (f_equal (@rev item)) in E. rewrite rev_involutive in E. cbn [rev] in E. subst its.
+    destruct (rev ri ++ [last]) eqn:E2; [destruct (rev ri); discriminate|]. rewrite <- E2.
+    unfold items_len. rewrite map_app, concat_app, !app_length. cbn [map concat]. rewrite app_nil_r, item_bytes0_length. reflexivity.
+Qed.
+
+Lemma walk_chain : forall ez its fuel gs st R,
+  Forall wf_item its -> (length its + 2 <= fuel)%nat -> st_fail st = false -> 0 < st_pos st ->
+  (Z.of_N (st_pos st) + Z.of_nat (items_len its) < 2147483648)%Z ->
+  st_rest st = chain_of ez its ++ R ->
+  walk fuel (Z.of_N (st_pos st)) gs st =
+    match apply_items its gs with
+    | Ok gs' => Ok (gs', adv st (length (chain_of ez its)) R)
+    | Throw e => Throw e
+    | UB t => UB t
+    end.
+Proof.
+  intros ez its fuel gs st R W Fu Hf Hp Hb Hr. unfold chain_of in *. destruct ez.
+  - destruct (rev its) as [|last ri] eqn:E.
+    + apply (f_equal (@rev item)) in E. rewrite rev_involutive in E. subst its. cbn [rev] in *.
+      rewrite (walk_items [] fuel gs st R W ltac:(cbn; lia) Hf Hp Hb Hr). reflexivity.
+    + apply (f_equal (@rev item)) in E. rewrite rev_involutive in E. cbn [rev] in E. subst its.
+      apply Forall_app in W. destruct W as [W1 W2]. apply Forall_cons_iff in W2. destruct W2 as [Wl _].
+      assert (Hb1 : (Z.of_N (st_pos st) + Z.of_nat (items_len (rev ri)) < 2147483648)%Z).
+      { unfold items_len in *. rewrite map_app, concat_app, app_length in Hb. lia. }
+      rewrite <- app_assoc in Hr. rewrite app_length in Fu. cbn [length] in Fu.
+      rewrite (walk_items_zero (rev ri) last fuel gs st R W1 Wl ltac:(lia) Hf Hp Hb1 Hr).
+      destruct (apply_items (rev ri ++ [last]) gs) as [gs'| |]; try reflexivity.
+      rewrite app_length. reflexivity.
+  - rewrite <- app_assoc in Hr. cbn [app] in Hr.
+    rewrite (walk_items its fuel gs st R W ltac:(lia) Hf Hp Hb Hr).
+    destruct (apply_items its gs) as [gs'| |]; try reflexivity. rewrite app_length. reflexivity.
+Qed.
+
+Theorem read_parameters_layout : forall h ez its gs b0 b1 blocks proc pre tail st,
   Forall wf_item its -> apply_items its [] = Ok gs -> st_fail st = false ->
-  st_file st = pre ++ [b0; b1; blocks; proc] ++ concat (map item_bytes its) ++ 0 :: tail ->
+  st_file st = pre ++ [b0; b1; blocks; proc] ++ chain_of ez its ++ tail ->
   1 <= h_paddr h < 256 -> nlen pre = 512 * (h_paddr h - 1) + h_zeros h ->
   ((b0 = 1 /\ b1 = 80) \/ (b0 = 0 /\ b1 = 0)) -> blocks < 256 -> proc < 256 ->
   (Z.of_N (nlen pre) + 4 + Z.of_nat (items_len its) < 2147483648)%Z ->
   exists st', read_parameters h st = Ok ((mkPro 1 80 blocks proc, gs), st') /\ st_fail st' = false /\ st_file st' = st_file st.
 Proof.
-  intros h its gs b0 b1 blocks proc pre tail st Wf Hg Hf Hfile Hp Lpre Hb Hbl Hpr Hsz.
+  intros h ez its gs b0 b1 blocks proc pre tail st Wf Hg Hf Hfile Hp Lpre Hb Hbl Hpr Hsz.
   unfold read_parameters. rewrite (sub64_small (h_paddr h)) by (unfold two64; lia). rewrite <- Lpre.
   assert (Ew : wrap32s (Z.of_N (wrap64 (nlen pre))) = Z.of_N (nlen pre)).
   { unfold wrap64, two64. rewrite N.mod_small by lia. apply wrap32s_id. lia. }
   rewrite Ew. unfold rbind at 1. unfold rd_seek, seek. rewrite Hf.
   assert (E0 : (Z.of_N (nlen pre) <? 0)%Z = false) by lia. rewrite E0. rewrite N2Z.id.
-  assert (Sk : skipn (Z.to_nat (Z.of_N (nlen pre))) (st_file st) = [b0; b1; blocks; proc] ++ concat (map item_bytes its) ++ 0 :: tail).
+  assert (Sk : skipn (Z.to_nat (Z.of_N (nlen pre))) (st_file st) = [b0; b1; blocks; proc] ++ chain_of ez its ++ tail).
   { rewrite Hfile. apply skipn_app_len. unfold nlen. lia. }
   rewrite Sk. cbn [app].
-  set (st1 := mkStream (st_file st) (nlen pre) (b0 :: b1 :: blocks :: proc :: concat (map item_bytes its) ++ 0 :: tail) false).
+  set (st1 := mkStream (st_file st) (nlen pre) (b0 :: b1 :: blocks :: proc :: chain_of ez its ++ tail) false).
   assert (B0 : b0 < 256 /\ b1 < 256) by (destruct Hb as [[-> ->]|[-> ->]]; lia).
   unfold rbind at 1. rewrite (uint1_cons b0 st1 _ (proj1 B0) eq_refl eq_refl).
   unfold rbind at 1. rewrite (uint1_cons b1 _ _ (proj2 B0) (adv_fail _ _ _) (adv_rest _ _ _)). rewrite adv_adv.
@@ -131,14 +178,15 @@ Proof.
   rewrite Epro. change (negb (80 =? 80)) with false. cbv iota.
   unfold rbind at 1. unfold rd_tell at 1. unfold tell. cbn [adv st_fail st_pos].
   unfold rbind at 1. unfold rd_len at 1. cbn [adv st_file].
-  set (st4 := adv st1 4 (concat (map item_bytes its) ++ 0 :: tail)).
+  set (st4 := adv st1 4 (chain_of ez its ++ tail)).
   assert (Pos4 : st_pos st4 = nlen pre + 4) by reflexivity.
   assert (Enx : wrap32s (Z.of_N (st_pos st1 + N.of_nat 4) + Z.of_N 1 - 1) = Z.of_N (st_pos st4)).
   { rewrite Pos4. unfold st1. cbn [st_pos]. rewrite wrap32s_id by lia. lia. }
   rewrite Enx. unfold rbind at 1.
-  assert (Fu : (length its < S (N.to_nat (nlen (st_file st))))%nat).
-  { pose proof (items_len_ge its) as G. rewrite Hfile. unfold nlen. rewrite Nat2N.id, !app_length. fold (items_len its). lia. }
-  rewrite (walk_items its _ [] st4 tail Wf).
+  assert (Fu : (length its + 2 <= S (N.to_nat (nlen (st_file st))))%nat).
+  { pose proof (items_len_ge its) as G. pose proof (chain_of_length ez its) as CL. rewrite Hfile. unfold nlen. rewrite Nat2N.id, !app_length. cbn [length].
+    destruct ez; [destruct its; cbn [length] in *; lia|lia]. }
+  rewrite (walk_chain ez its _ [] st4 tail Wf).
   - rewrite Hg. unfold rret. eexists. split; [reflexivity|]. split; reflexivity.
   - exact Fu.
   - reflexivity.
@@ -201,18 +249,18 @@ Qed.
 (* ---------- the whole file ---------- *)
 (* z zero bytes, the header block with the section's block number p in its first byte, p-2 blocks of anything, the parameter
    section (prologue, records, end marker, anything up to the block boundary and beyond: `blocks` blocks), the data *)
-Definition file_of (z : nat) (p : N) (h : header) (d : N) (gap : list N) (b0 b1 blocks proc : N) (its : list item)
+Definition file_of (z : nat) (p : N) (h : header) (d : N) (gap : list N) (b0 b1 blocks proc : N) (ez : bool) (its : list item)
                    (tail : list N) (fs : list frame) : list N :=
-  repeat 0 z ++ header_block p h d ++ gap ++ [b0; b1; blocks; proc] ++ concat (map item_bytes its) ++ 0 :: tail ++ data_section fs.
+  repeat 0 z ++ header_block p h d ++ gap ++ [b0; b1; blocks; proc] ++ chain_of ez its ++ tail ++ data_section fs.
 
 Section WithOps.
 Variable f_key : f32 -> outcome Z.
 Variable f_tosize : f32 -> outcome N.
 Variable f_div : f32 -> f32 -> f32.
 
-Theorem load_layout : forall z p h d gap b0 b1 blocks proc its tail fs gs pn an,
+Theorem load_layout : forall z p h d gap b0 b1 blocks proc ez its tail fs gs pn an,
   wf_hdr h -> wf_header h -> u16 d -> 2 <= p < 256 -> nlen gap = 512 * (p - 2) ->
-  4 + N.of_nat (items_len its) + 1 + nlen tail = 512 * blocks -> blocks < 256 -> proc < 256 ->
+  4 + nlen (chain_of ez its) + nlen tail = 512 * blocks -> blocks < 256 -> proc < 256 ->
   ((b0 = 1 /\ b1 = 80) \/ (b0 = 0 /\ b1 = 0)) ->
   Forall wf_item its -> apply_items its [] = Ok gs ->
   (Z.of_nat z + 512 * Z.of_N (p - 1) + 512 * Z.of_N blocks < 2147483648)%Z ->
@@ -225,12 +273,13 @@ Theorem load_layout : forall z p h d gap b0 b1 blocks proc its tail fs gs pn an,
    (if 0 <? h_nb_analogs h1 then obind (group_named gs nm_ANALOG) (fun g => obind (param_named g nm_LABELS) values_as_string) = Ok an else an = []) /\
    (fs <> [] -> (h_scale h1 < 0)%Z) /\
    Forall (uniform (N.to_nat (h_points h1)) (N.to_nat (h_byframe h1)) (N.to_nat (h_nb_analogs h1))) fs) ->
-  load f_key f_tosize f_div (file_of z p h d gap b0 b1 blocks proc its tail fs) =
+  load f_key f_tosize f_div (file_of z p h d gap b0 b1 blocks proc ez its tail fs) =
     Ok (mkState (with_pz (with_dstart h d) p (N.of_nat z)) (mkPro 1 80 blocks proc) gs (map (rename_frame pn an) fs)).
 Proof.
-  intros z p h d gap b0 b1 blocks proc its tail fs gs pn an Wh Wl Hd Hp Lgap Lsec Hbl Hpr Hb Wf Hg Hsz Huh Hdata.
+  intros z p h d gap b0 b1 blocks proc ez its tail fs gs pn an Wh Wl Hd Hp Lgap Lsec Hbl Hpr Hb Wf Hg Hsz Huh Hdata.
+  assert (CL : (items_len its <= length (chain_of ez its))%nat) by (rewrite chain_of_length; destruct ez; [destruct its; [cbn; lia|lia]|lia]).
   set (h1 := with_pz (with_dstart h d) p (N.of_nat z)) in *. set (pr := mkPro 1 80 blocks proc) in *.
-  set (file := file_of z p h d gap b0 b1 blocks proc its tail fs).
+  set (file := file_of z p h d gap b0 b1 blocks proc ez its tail fs).
   assert (Lhb : length (header_block p h d) = 512%nat) by (apply header_block_length; exact Wl).
   unfold load.
   rewrite (read_header_layout z p h d (open_stream file) _ Wh Wl Hd ltac:(lia) ltac:(lia) eq_refl eq_refl).
@@ -240,18 +289,17 @@ Proof.
   set (pre := repeat 0 z ++ header_block p h d ++ gap).
   assert (Lpre : nlen pre = 512 * (p - 1) + N.of_nat z).
   { unfold pre, nlen in *. rewrite !app_length, repeat_length, Lhb. lia. }
-  assert (Ef : file = pre ++ [b0; b1; blocks; proc] ++ concat (map item_bytes its) ++ 0 :: (tail ++ data_section fs)).
+  assert (Ef : file = pre ++ [b0; b1; blocks; proc] ++ chain_of ez its ++ (tail ++ data_section fs)).
   { unfold file, file_of, pre. rewrite <- !app_assoc. reflexivity. }
-  destruct (read_parameters_layout h1 its gs b0 b1 blocks proc pre (tail ++ data_section fs) st1 Wf Hg eq_refl Ef
-              ltac:(rewrite P1; lia) ltac:(rewrite P1, Z1; exact Lpre) Hb Hbl Hpr ltac:(rewrite Lpre; lia)) as [st2 [R2 [F2 Fl2]]].
+  destruct (read_parameters_layout h1 ez its gs b0 b1 blocks proc pre (tail ++ data_section fs) st1 Wf Hg eq_refl Ef
+              ltac:(rewrite P1; lia) ltac:(rewrite P1, Z1; exact Lpre) Hb Hbl Hpr ltac:(rewrite Lpre; unfold nlen in *; lia)) as [st2 [R2 [F2 Fl2]]].
   rewrite R2. fold pr. cbv zeta in Huh. rewrite Huh. cbn [hdr].
   cbv zeta in Hdata. destruct Hdata as (D1 & D2 & D3 & D4 & D5 & D6 & D7).
-  set (pre2 := pre ++ [b0; b1; blocks; proc] ++ concat (map item_bytes its) ++ 0 :: tail).
+  set (pre2 := pre ++ [b0; b1; blocks; proc] ++ chain_of ez its ++ tail).
   assert (Ef2 : st_file st2 = pre2 ++ data_section fs).
   { rewrite Fl2. unfold st1. cbn [st_file]. rewrite Ef. unfold pre2. rewrite <- ?app_assoc. cbn [app]. rewrite <- ?app_assoc. cbn [app]. reflexivity. }
   assert (Lpre2 : nlen pre2 = 512 * (h_paddr h1 - 1) + h_zeros h1 + 512 * ps_blocks pr).
-  { rewrite P1, Z1. unfold pr. cbn [ps_blocks]. unfold pre2, nlen in *. rewrite app_length. cbn [app length]. rewrite app_length. cbn [length].
-    fold (items_len its). lia. }
+  { rewrite P1, Z1. unfold pr. cbn [ps_blocks]. unfold pre2, nlen in *. rewrite app_length. cbn [app length]. rewrite app_length. lia. }
   assert (B1 : 1 <= ps_blocks pr) by (unfold pr; cbn [ps_blocks]; lia).
   destruct (read_data_layout h1 pr gs st2 pre2 fs pn an F2 Ef2 ltac:(rewrite P1; lia) Lpre2 B1
               ltac:(rewrite Lpre2, P1, Z1; unfold pr; cbn [ps_blocks]; lia) D1 D2 D3 D4 D5 D6 D7) as [st3 R3].
